@@ -4,6 +4,7 @@
 // transaction dumps (multi-packet-head bit masked), the same delivered body bytes and the same per-(transaction,
 // direction) callback projection (consecutive data callbacks coalesced).
 #include <algorithm>
+#include <zlib.h>
 #include "httpgen.hpp"
 #include "rcx.hpp"
 #include "vcommon.hpp"
@@ -72,7 +73,7 @@ static std::pair<std::string, std::string> compare(const Canon &ref, const vdrv:
 
 // site suffix from trace points so that the D9 'unexpected request body' family can be attributed
 static std::string site(const vdrv::Result &ref, const vdrv::Result &r) {
-    std::string s; for (int t : {1, 5, 6, 7}) { bool a = ref.trace_hits.count(t), b = r.trace_hits.count(t); if (a || b) s += "+T" + std::to_string(t); } return s;
+    std::string s; for (int t : {1, 3, 5, 6, 7}) { bool a = ref.trace_hits.count(t), b = r.trace_hits.count(t); if (a || b) s += "+T" + std::to_string(t); } return s;
 }
 
 static std::pair<std::string, std::string> check_one(int pers, const std::string &rq, const std::string &rs, const std::vector<size_t> &qc, const std::vector<size_t> &sc, const Canon *refc = nullptr, const vdrv::Result *refr = nullptr) {
@@ -93,7 +94,7 @@ static CutClass classify(const std::string &wire, const std::vector<hg::Exchange
 }
 
 static void campaign() {
-    int cases = A.thorough() ? 3000 : 160;
+    int cases = A.thorough() ? 3000 : 300;
     hg::Opts o;
     rcx::run("segmentation_invariance", vc::mix(A.seed * 173 + A.shard), cases, 40, [&]() -> std::optional<rcx::Fail> {
         hg::Exchange x = hg::gen_exchange(o);
@@ -121,6 +122,85 @@ static void campaign() {
     });
 }
 
+
+// ---- second campaign: bodies that go through the stateful body consumers (multipart, urlencoded, inflate) ----------
+static std::string zpack(const std::string &in, int wbits) { // wbits: 31 gzip, 15 zlib, -15 raw deflate
+    z_stream z; memset(&z, 0, sizeof z); if (deflateInit2(&z, 6, Z_DEFLATED, wbits, 8, Z_DEFAULT_STRATEGY) != Z_OK) return "";
+    std::string out(deflateBound(&z, in.size()) + 64, '\0'); z.next_in = (Bytef *)in.data(); z.avail_in = (uInt)in.size(); z.next_out = (Bytef *)&out[0]; z.avail_out = (uInt)out.size();
+    deflate(&z, Z_FINISH); out.resize(z.total_out); deflateEnd(&z); return out;
+}
+// part content: CR, LF, dashes and proper prefixes of the delimiter, never the whole delimiter (the domain is well-formed bodies)
+static std::string gen_part_data(const std::string &b) {
+    std::string d; int n = rcx::sized(0, 6);
+    for (int i = 0; i < n; i++) switch (rcx::range(0, 9)) { case 0: d += "\r\n"; break; case 1: d += "\n"; break; case 2: d += "\r"; break; case 3: d += "--!"; break; case 4: d += "\r\n--" + b.substr(0, (size_t)rcx::range(0, (int)b.size() - 1)) + "!"; break; case 5: d += "-!"; break; case 6: { char ch = (char)rcx::range(0, 255); d += ch == '-' ? '!' : ch; break; } default: { int m = rcx::range(1, 6); for (int k = 0; k < m; k++) d += (char)('a' + rcx::range(0, 25)); } }
+    return d;
+}
+static std::string gen_multipart(std::string &ctype) {
+    static const char *B[] = {"bnd", "b", "----WebKitFormBoundaryAbC123", "a-b", "x'y"};
+    std::string b = B[rcx::range(0, 4)], eol = rcx::chance(1, 5) ? "\n" : "\r\n";
+    ctype = "multipart/form-data; boundary=" + (rcx::chance(1, 6) ? "\"" + b + "\"" : b);
+    std::string s; if (rcx::chance(1, 4)) s += "preamble" + gen_part_data(b) + eol;
+    int n = rcx::range(1, 4);
+    for (int i = 0; i < n; i++) {
+        s += "--" + b + (rcx::chance(1, 10) ? " \t" : "") + eol;
+        s += "Content-Disposition: form-data; name=\"f" + std::to_string(i) + "\"" + (rcx::chance(1, 3) ? "; filename=\"file" + std::to_string(i) + ".txt\"" : "") + eol;
+        if (rcx::chance(1, 3)) s += "Content-Type: text/plain" + eol;
+        if (rcx::chance(1, 8)) s += "X-Folded: a" + eol + " b" + eol;
+        s += eol + gen_part_data(b) + eol;
+    }
+    if (!rcx::chance(1, 8)) s += "--" + b + "--" + (rcx::chance(1, 2) ? eol : "");
+    if (rcx::chance(1, 5)) s += "epilogue" + gen_part_data(b);
+    return s;
+}
+static std::string gen_urlencoded() {
+    static const char *T[] = {"a", "b1", "=", "&", "%41", "%", "%4", "+", "%u0041", "%00", "xyz", "%2", "&&", "=="};
+    std::string s; int n = rcx::sized(1, 14); for (int i = 0; i < n; i++) s += T[rcx::range(0, 13)]; return s;
+}
+struct BodyCase { int pers; std::string rq, rs; size_t rq_body_at, rs_body_at; std::string kind; };
+static std::string frame(const std::string &body, bool chunked, const std::string &extra_headers, std::string &head) {
+    if (!chunked) { head += extra_headers + "Content-Length: " + std::to_string(body.size()) + "\r\n\r\n"; return body; }
+    head += extra_headers + "Transfer-Encoding: chunked\r\n\r\n"; std::string w; size_t p = 0;
+    while (p < body.size()) { size_t n = (size_t)rcx::range(1, 40); if (n > body.size() - p) n = body.size() - p; char h[32]; snprintf(h, sizeof h, "%zx\r\n", n); w += h + body.substr(p, n) + "\r\n"; p += n; }
+    return w + "0\r\n\r\n";
+}
+static BodyCase gen_body_case() {
+    BodyCase c; c.pers = rcx::range(0, 9); int k = rcx::range(0, 3);
+    std::string qh = "POST /form?q=1 HTTP/1.1\r\nHost: h.example\r\n", sh = "HTTP/1.1 200 OK\r\n", qb, sb = "ok";
+    std::string qx, sx;
+    if (k == 0) { std::string ct; qb = gen_multipart(ct); qx = "Content-Type: " + ct + "\r\n"; c.kind = "multipart_request"; }
+    else if (k == 1) { qb = gen_urlencoded(); qx = "Content-Type: application/x-www-form-urlencoded\r\n"; c.kind = "urlencoded_request"; }
+    else { static const int WB[] = {31, 15, -15}; int w = rcx::range(0, 2); std::string plain; int n = rcx::sized(0, 30); for (int i = 0; i < n; i++) plain += rcx::chance(1, 3) ? std::string((size_t)rcx::range(1, 40), (char)('a' + rcx::range(0, 3))) : std::string(1, (char)rcx::range(0, 255));
+        sb = zpack(plain, WB[w]); if (rcx::chance(1, 6) && !sb.empty()) sb.resize(sb.size() - (size_t)rcx::range(0, (int)std::min<size_t>(8, sb.size()))); // possibly truncated stream
+        if (rcx::chance(1, 6)) sb += "trailing-garbage";
+        sx = std::string("Content-Encoding: ") + (w == 0 ? (rcx::coin() ? "gzip" : "x-gzip") : "deflate") + "\r\n"; qb = ""; c.kind = w == 0 ? "gzip_response" : w == 1 ? "zlib_deflate_response" : "raw_deflate_response"; }
+    std::string qw = frame(qb, rcx::chance(1, 3), qx, qh), sw = frame(sb, rcx::chance(1, 3), sx, sh);
+    c.rq_body_at = qh.size(); c.rs_body_at = sh.size(); c.rq = qh + qw; c.rs = sh + sw;
+    if (rcx::chance(1, 3)) { c.rq += "GET /next HTTP/1.1\r\nHost: h.example\r\n\r\n"; c.rs += "HTTP/1.1 204 No Content\r\n\r\n"; }
+    return c;
+}
+static void campaign_bodies() {
+    int cases = A.thorough() ? 1500 : 150;
+    rcx::run("segmentation_invariance_bodies", vc::mix(A.seed * 179 + A.shard + 5000), cases, 50, [&]() -> std::optional<rcx::Fail> {
+        BodyCase b = gen_body_case(); bool counting = !rcx::shrinking();
+        vc::set_current_case(case_text(b.pers, b.rq, b.rs, {}, {}));
+        vdrv::Result refr = run_chunks(b.pers, {b.rq}, {b.rs}); Canon ref = canon(refr);
+        if (counting) { g_stats.evaluations++; g_stats.cls("body_cases"); g_stats.cls("body_" + b.kind); }
+        auto one = [&](const std::vector<size_t> &qc, const std::vector<size_t> &sc) -> std::optional<rcx::Fail> {
+            auto d = check_one(b.pers, b.rq, b.rs, qc, sc, &ref, &refr);
+            if (counting) { g_stats.evaluations++; g_stats.cls("chunkings"); }
+            if (!d.first.empty()) { std::string sig = "C03:" + d.first; if (A.is_known(sig)) { if (counting) g_stats.attributed[sig]++; return {}; } return rcx::Fail{sig, case_text(b.pers, b.rq, b.rs, qc, sc), d.second}; }
+            return {};
+        };
+        bool rqside = b.kind.find("request") != std::string::npos;
+        const std::string &w = rqside ? b.rq : b.rs; size_t from = rqside ? b.rq_body_at : b.rs_body_at;
+        for (size_t c = from > 2 ? from - 2 : 1; c < w.size() && c < from + 400; c++) { if (auto f = rqside ? one({c}, {}) : one({}, {c})) return f; if (counting) { g_stats.nt(vc::fnv1a(w, c + 200000)); g_stats.cls("cut_inside_parsed_body"); } }
+        { std::vector<size_t> all; for (size_t c = 1; c < w.size() && c < 4000; c++) all.push_back(c); if (auto f = rqside ? one(all, {}) : one({}, all)) return f; }
+        for (int k = 0; k < 6; k++) { std::vector<size_t> cs; int n = rcx::range(2, 6); for (int i = 0; i < n && w.size() > 1; i++) cs.push_back((size_t)rcx::range(1, (int)w.size() - 1)); std::sort(cs.begin(), cs.end()); if (auto f = rqside ? one(cs, {}) : one({}, cs)) return f; }
+        if (counting) g_stats.sample_sparse(case_text(b.pers, b.rq, b.rs, {}, {}), g_stats.evaluations);
+        return {};
+    });
+}
+
 static int replay(const std::string &path) {
     std::string f = vc::read_file(path); int pers = 2; std::string rq, rs; std::vector<size_t> qc, sc; size_t p = 0;
     while (p < f.size()) {
@@ -140,6 +220,7 @@ int main(int argc, char **argv) {
     if (!A.replay.empty()) return replay(A.replay);
     g_stats.init(A); g_stats.max_samples = 4; vc::install_crash_capture();
     campaign();
+    campaign_bodies();
     g_stats.write();
     return g_stats.failures.empty() ? 0 : 1;
 }
